@@ -45,11 +45,11 @@ def lineCount (input : Bytes) : Nat := 1 + (input.filter (· == 10)).length
 /-- an error of lexer ∘ parser is positioned at a token of the lexer's stream for this input -/
 theorem err_at_token (pf : Bytes → Option UInt64) (input : Bytes) (pos : Nat)
     (h : parseSource pf input = .error (.err pos)) :
-    ∃ is, Lex.lexAll input false = .items is ∧ ∃ it ∈ is, it.pos = pos :=
+    ∃ is, Lex.lexAll input false = .items is ∧ ∃ it ∈ is, Lemmas.ParserSafe.ErrAt it pos :=
   parse_source_err_at_token pf input pos h
 
 theorem soyFile_err_at_token (input : Bytes) (pos : Nat) (h : soyFile input = .error (.err pos)) :
-    ∃ is, Lex.lexAll input false = .items is ∧ ∃ it ∈ is, it.pos = pos :=
+    ∃ is, Lex.lexAll input false = .items is ∧ ∃ it ∈ is, Lemmas.ParserSafe.ErrAt it pos :=
   err_at_token parseFloat64 input pos h
 
 theorem err_pos_in_input (pf : Bytes → Option UInt64) (input : Bytes) (pos : Nat)
@@ -60,6 +60,7 @@ theorem err_pos_in_input (pf : Bytes → Option UInt64) (input : Bytes) (pos : N
   rcases parse_err_at_token pf is pos h with h0 | ⟨it, hm, hp⟩
   · omega
   · have := hb it hm
+    have := hp.le
     omega
 
 theorem err_line_in_range (pf : Bytes → Option UInt64) (input : Bytes) (pos : Nat)
@@ -107,19 +108,23 @@ theorem byteAt_some {l : List UInt8} {i : Nat} {v : UInt8} (hv : v ≠ 0) (h : L
       an expression lexed by `lexExpr`, which is not inside a tag);
     * "unexpected eof while scanning string": at the opening `"` or `'`;
     * "unclosed block comment": at `/*`;
-    * "unexpected eof when scanning soydoc": at `/**`. -/
+    * "unexpected eof when scanning soydoc": at `/**`;
+    * "unexpected beginning to name after '.'" / "… after '?.'" (/repo 8984077): at that `.` / `?`.
+    (Class 1 also covers the two malformed tags reported at their `{` since /repo ac1c871:
+    "expected {@param name: ...}" and "expected closing tag after {literal..".) -/
 theorem lex_error_at_construct_start (input : Bytes) (exprMode : Bool) (is : List Item) (e : Item)
     (h : Lex.lexAll input exprMode = .items is) (hl : is.getLast? = some e) (ht : e.typ = .tError) :
     (e.val = [Lex.clsTag] ∨ e.val = [Lex.clsLiteral] → e.pos = 0 ∨ input[e.pos]? = some 123) ∧
     (e.val = [Lex.clsString] → input[e.pos]? = some 34 ∨ input[e.pos]? = some 39) ∧
     (e.val = [Lex.clsComment] → input[e.pos]? = some 47 ∧ input[e.pos + 1]? = some 42) ∧
-    (e.val = [Lex.clsSoyDoc] → input[e.pos]? = some 47 ∧ input[e.pos + 1]? = some 42 ∧ input[e.pos + 2]? = some 42) := by
+    (e.val = [Lex.clsSoyDoc] → input[e.pos]? = some 47 ∧ input[e.pos + 1]? = some 42 ∧ input[e.pos + 2]? = some 42) ∧
+    (e.val = [Lex.clsName] → input[e.pos]? = some 46 ∨ input[e.pos]? = some 63) := by
   obtain ⟨is', hl', _, _, _, herr⟩ := lex_items input exprMode
   rw [h] at hl'
   simp only [Lex.LexResult.items.injEq] at hl'
   subst hl'
-  obtain ⟨h1, h2, h3, h4⟩ := herr e hl ht
-  refine ⟨fun hc => ?_, fun hc => ?_, fun hc => ?_, fun hc => ?_⟩
+  obtain ⟨h1, h2, h3, h4, h5⟩ := herr e hl ht
+  refine ⟨fun hc => ?_, fun hc => ?_, fun hc => ?_, fun hc => ?_, fun hc => ?_⟩
   · rcases h1 hc with h | h
     · exact Or.inl h
     · exact Or.inr (byteAt_some (v := 123) (by decide) h)
@@ -129,6 +134,9 @@ theorem lex_error_at_construct_start (input : Bytes) (exprMode : Bool) (is : Lis
   · exact ⟨byteAt_some (v := 47) (by decide) (h3 hc).1, byteAt_some (v := 42) (by decide) (h3 hc).2⟩
   · exact ⟨byteAt_some (v := 47) (by decide) (h4 hc).1, byteAt_some (v := 42) (by decide) (h4 hc).2.1,
       byteAt_some (v := 42) (by decide) (h4 hc).2.2⟩
+  · rcases h5 hc with h | h
+    · exact Or.inl (byteAt_some (v := 46) (by decide) h)
+    · exact Or.inr (byteAt_some (v := 63) (by decide) h)
 
 /-- in file mode an unclosed tag is never reported at 0 unless a `{` stands there -/
 theorem lex_unclosed_tag_at_brace (input : Bytes) (is : List Item) (e : Item)
@@ -158,7 +166,7 @@ theorem lex_open_soydoc :
   simp [lexAll, Lex.fuelFor, run, step, lexText, lexTextLoop, lexSoyDoc, lexSoyDocLoop, Lexer.next, initLexer, Lexer.len,
     decodeRune, byteAt, maybeEmitText, Lex.errorfAt, eof, clsSoyDoc, Lexer.emit, sliceOf, Lexer.peek, Lexer.backup]
 
-example := (lex_error_at_construct_start [47, 42, 42] false _ ⟨.tError, 0, [4]⟩ lex_open_soydoc rfl rfl).2.2.2 rfl
+example := (lex_error_at_construct_start [47, 42, 42] false _ ⟨.tError, 0, [4]⟩ lex_open_soydoc rfl rfl).2.2.2.1 rfl
 -- (the classes "unclosed tag", "unclosed literal" and "…scanning string" are exercised by the
 --  C05lex correspondence: op `lex` prints the class of every Error item on both sides)
 end
